@@ -791,9 +791,17 @@ func checkUUIDTicks(tk *big.Int, boundary bool, i int) {
 		guard("uuid_v1.roundtrip", cs2, func() {
 			var a, b uuid_v1.UUIDv1
 			a.UUID.Variant = 0x8
+			if (i/8)%2 == 1 {
+				a.SetTime(wt)
+			}
 			a.SetClockSequence(cseq)
 			a.SetNodeID(node[:])
-			a.SetTime(wt)
+			if (i/8)%2 == 0 {
+				a.SetTime(wt)
+			}
+			if before := a.GetTime(); a.Time != u || !before.Equal(wt) {
+				r.Violation("uuid_v1.GetTime:after-other-setters:"+reg, fmt.Sprintf("SetTime(%s) and the other setters (time first: %v): Time=%d GetTime()=%s", fmtRef(wsec, wnsec), (i/8)%2 == 1, a.Time, fmtT(before)), cs2)
+			}
 			var err error
 			if i%2 == 0 {
 				var m []byte
@@ -817,11 +825,20 @@ func checkUUIDTicks(tk *big.Int, boundary bool, i int) {
 		guard("uuid_v2.roundtrip", cs2, func() {
 			var a, b uuid_v2.UUIDv2
 			a.UUID.Variant = 0x8
+			// the setters in either order: the time set does not depend on when the others are called
+			if (i/8)%2 == 1 {
+				a.SetTime(wt)
+			}
 			a.SetClock(clock)
 			a.SetLocalDomain(ld)
 			a.SetLocalDomainNumber(ldn)
 			a.SetNodeID(node[:])
-			a.SetTime(wt)
+			if (i/8)%2 == 0 {
+				a.SetTime(wt)
+			}
+			if before := a.GetTime(); a.Time != u || !before.Equal(wt) {
+				r.Violation("uuid_v2.GetTime:after-other-setters:"+reg, fmt.Sprintf("SetTime(%s) and the other setters (time first: %v): Time=%d GetTime()=%s", fmtRef(wsec, wnsec), (i/8)%2 == 1, a.Time, fmtT(before)), cs2)
+			}
 			var err error
 			if i%2 == 0 {
 				var m []byte
